@@ -586,10 +586,16 @@ void prop_main(const Case& cs) {
 // Orders that defeat the algorithm itself are not part of this claim: zigzag arrival (min, max, 2nd min, 2nd max, ...) of
 // log-uniform values over e^40 gave a 6% rank error at the median for k = 500, sorted blocks in random order 2.2 cluster sizes,
 // on both trees; the t-digest has no worst-case guarantee, so these are not findings.
-// Bound: err <= C * (cluster fraction + 1/n); class A = sorted or reversed arrival of linearly or log-uniformly spaced values
-// (interpolation inside a cluster is then nearly exact), class B = everything else that is generated here.
-struct AccC { double rank, quant; };
-inline AccC acc_constants(int order, int dist) { return (order <= 1 && dist <= 2) ? AccC{0.5, 0.6} : AccC{1.3, 2.4}; }
+// Bound: err <= C * (cluster fraction + 1/n); class A = sorted or reversed arrival of log-uniformly spaced values (and, for the
+// calibration figures above, linearly spaced ones), class B = everything else that is generated here.
+// Class A0 = sorted or reversed arrival of linearly spaced values: linear interpolation is then exact up to an item, observed
+// get_rank error 0 and get_quantile error <= 0.67 items = 0.60 * (0.05 * cluster fraction + 1/n) over 8 seeds x ~400 streams;
+// bound 1.5 * (0.05 * cluster fraction + 1/n). This is the sharp end of the claim: a half-cluster shift is 10x outside it.
+struct AccC { double rank, quant, cf_scale; };
+inline AccC acc_constants(int order, int dist) {
+  if (order <= 1 && dist <= 1) return AccC{1.5, 1.5, 0.05};
+  return (order <= 1 && dist <= 2) ? AccC{0.5, 0.6, 1.0} : AccC{1.3, 2.4, 1.0};
+}
 double cluster_fraction(double q, double k, double n) { return q * (1 - q) * (4 * std::log(n / (2 * k)) + 24) / (2 * k); }
 
 struct Calib { double max_rank[64] = {0}, max_quant[64] = {0}; };
@@ -657,7 +663,8 @@ template <typename T> void prop_acc_t(const Case& cs) {
   for (double e : {1.5, 2.9, 7.3, 40.7}) { qs.push_back(e / dn0); qs.push_back(1 - e / dn0); }   // the last few items on either side
   const AccC acc = acc_constants(order, dist);
   const double dn = static_cast<double>(n);
-  const bool cal = !vf::env("C17_CALIB").empty();
+  const bool cal = !vf::env("C17_CALIB").empty();   // development aid: print error ratios, accuracy bounds switched off
+  if (cal) vf::label("CALIBRATION-MODE-accuracy-bounds-off");
   Deferred qfail;
   for (double q : qs) {
     // rank of a stream value
@@ -669,7 +676,7 @@ template <typename T> void prop_acc_t(const Case& cs) {
     const double est = t.get_rank(v);
     const double err = std::fabs(est - truth);
     const double cf = cluster_fraction(truth, k, dn);
-    const double bound = cal ? 2.0 : acc.rank * (cf + 1 / dn);   // C17_CALIB (development aid): report ratios, never fail
+    const double bound = cal ? 2.0 : acc.rank * (acc.cf_scale * cf + 1 / dn);   // C17_CALIB (development aid): report ratios, never fail
     if (cal) {
       double ratio = err / (cf + 1 / dn);
       if (ratio > calib().max_rank[order * 4 + dist]) { calib().max_rank[order * 4 + dist] = ratio; fprintf(stderr, "CALIB rank ratio %.4f err %.3g q %.4f k %u n %" PRIu64 " order %d dist %d parts %" PRIu64 " tree %d qevery %" PRIu64 " %s\n", ratio, err, truth, k, n, order, dist, parts, tree, qevery, Lim<T>::name()); }
@@ -681,10 +688,14 @@ template <typename T> void prop_acc_t(const Case& cs) {
     const double b = static_cast<double>(std::upper_bound(F.begin(), F.end(), x) - F.begin()) / dn;
     const double qerr = q < a ? a - q : q > b ? q - b : 0.0;
     const double qcf = cluster_fraction(q, k, dn);
-    const double qbound = cal ? 2.0 : acc.quant * (qcf + 1 / dn);
+    const double qbound = cal ? 2.0 : acc.quant * (acc.cf_scale * qcf + 1 / dn);
     if (cal) {
       double ratio = qerr / (qcf + 1 / dn);
       if (ratio > calib().max_quant[order * 4 + dist]) { calib().max_quant[order * 4 + dist] = ratio; fprintf(stderr, "CALIB quant ratio %.4f err %.3g q %.4f k %u n %" PRIu64 " order %d dist %d parts %" PRIu64 " tree %d qevery %" PRIu64 " %s\n", ratio, qerr, q, k, n, order, dist, parts, tree, qevery, Lim<T>::name()); }
+    }
+    if (cal && order <= 1 && dist <= 1) {
+      static double mx = 0; double r2 = qerr / (0.05 * qcf + 1 / dn);
+      if (r2 > mx) { mx = r2; fprintf(stderr, "CALIB2 quantA0 ratio %.4f err %.3g items %.3f q %.6f k %u n %" PRIu64 " parts %" PRIu64 " tree %d qevery %" PRIu64 " %s\n", r2, qerr, qerr * dn, q, k, n, parts, tree, qevery, Lim<T>::name()); }
     }
     if (!qfail.set && !(qerr <= qbound)) {
       std::ostringstream os;
